@@ -371,6 +371,39 @@ def _global_state(repo, res):
                             tgt = is_glob(t.value, n)
                 if tgt:
                     res.fail(f"{f.key}:mutates-global:{tgt}", f"{f.key} mutates module-level `{tgt}`: state leaks from one compilation into the next", m.line(n))
+            # mutable containers bound in the class body and grown through an instance (`self.table[k] = v`, `self.table.setdefault(...)`)
+            # without the instance getting its own container first: one object shared by all instances of the process
+            if f.cls is not None and "self" in f.params:
+                class_mut = {}
+                for st in f.cls.body:
+                    tg = st.targets[0] if isinstance(st, ast.Assign) else (st.target if isinstance(st, ast.AnnAssign) else None)
+                    v_ = getattr(st, "value", None)
+                    if isinstance(tg, ast.Name) and v_ is not None and (isinstance(v_, (ast.Dict, ast.List, ast.Set, ast.ListComp, ast.DictComp, ast.SetComp)) or (
+                            isinstance(v_, ast.Call) and (call_name(v_) or "").split(".")[-1] in STATEFUL_CTORS)):
+                        class_mut[tg.id] = st
+                if class_mut:
+                    # attributes every instance re-binds in __init__ are per-instance
+                    init = m.funcs.get(f"{f.cls.name}.__init__")
+                    own = set()
+                    if init is not None:
+                        for n in walk_no_nested(init.node):
+                            if isinstance(n, (ast.Assign, ast.AnnAssign)):
+                                for t in (n.targets if isinstance(n, ast.Assign) else [n.target]):
+                                    if isinstance(t, ast.Attribute) and isinstance(t.value, ast.Name) and t.value.id == "self":
+                                        own.add(t.attr)
+                    for n in walk_no_nested(f.node):
+                        hit = None
+                        if isinstance(n, (ast.Assign, ast.AugAssign)):
+                            for t in (n.targets if isinstance(n, ast.Assign) else [n.target]):
+                                if isinstance(t, ast.Subscript) and isinstance(t.value, ast.Attribute) and isinstance(t.value.value, ast.Name) and t.value.value.id == "self" \
+                                        and t.value.attr in class_mut:
+                                    hit = t.value.attr
+                        if isinstance(n, ast.Call) and isinstance(n.func, ast.Attribute) and n.func.attr in MUTATING and isinstance(n.func.value, ast.Attribute) \
+                                and isinstance(n.func.value.value, ast.Name) and n.func.value.value.id == "self" and n.func.value.attr in class_mut:
+                            hit = n.func.value.attr
+                        if hit and hit not in own:
+                            res.fail(f"{f.key}:mutates-class-container:{hit}", f"{f.key} grows `self.{hit}`, a container bound in the body of class {f.cls.name} and never re-bound per "
+                                     "instance: all instances - all kernels and all compilations of the process - share one object", m.line(n))
             # mutable defaults
             a = f.node.args
             pos = a.posonlyargs + a.args
